@@ -117,9 +117,9 @@ func (c *Ctx) reachConds(b *ssa.BasicBlock) []string {
 				if iff, ok := p.Instrs[len(p.Instrs)-1].(*ssa.If); ok {
 					s := c.Expr(iff.Cond)
 					if p.Succs[0] == b && p.Succs[1] != b {
-						lits = append(lits, "+"+s)
+						lits = append(lits, canonGuard(true, s))
 					} else if p.Succs[1] == b && p.Succs[0] != b {
-						lits = append(lits, "-"+s)
+						lits = append(lits, canonGuard(false, s))
 					}
 				}
 			}
@@ -142,7 +142,7 @@ func (c *Ctx) reachConds(b *ssa.BasicBlock) []string {
 			}
 		}
 		for _, a := range alts {
-			if strings.HasPrefix(a, "(+") && !strings.Contains(a, " & ") && set["(-"+a[2:]] {
+			if !strings.Contains(a, " & ") && len(a) > 2 && set["("+negGuard(a[1:len(a)-1])+")"] {
 				trivial = true
 			}
 		}
